@@ -49,6 +49,9 @@ type Channel struct {
 	CurrentHeaderType PacketHeaderType
 	// curPacketNr is the number of the next packet being sent
 	curPacketNr int
+	// eomPending is true while the last packet sent did not carry the
+	// end of message flag
+	eomPending bool
 	// window is the amount of buffers transmitted between ACKs
 	window int
 
@@ -538,6 +541,15 @@ func (tdsChan *Channel) sendPackets(ctx context.Context, onlyFull bool) error {
 		}
 	}
 
+	if !onlyFull && tdsChan.eomPending {
+		// The message ended on a packet boundary, all of its packets
+		// were full and none carries the end of message flag.
+		// Terminate the message with an empty packet.
+		if err := tdsChan.sendPacket(NewPacket(PacketHeaderSize)); err != nil {
+			return fmt.Errorf("error sending end of message packet: %w", err)
+		}
+	}
+
 	return nil
 }
 
@@ -566,6 +578,8 @@ func (tdsChan *Channel) sendPacket(packet *Packet) error {
 		return fmt.Errorf("expected to write %d bytes for packet, wrote %d instead",
 			int(packet.Header.Length)+PacketHeaderSize, n)
 	}
+
+	tdsChan.eomPending = packet.Header.Status&TDS_BUFSTAT_EOM != TDS_BUFSTAT_EOM
 
 	return nil
 }
